@@ -2,7 +2,7 @@
    acc: <ipc 0|1> ; ops ; beh0 | beh1 ... ; accept4 answers ; alloc answers ; open answers ; kinds
         ops: Af Ab At C N T R<0|1> V<msg>/<msg>... (msg = ids separated by commas, - = none)
    con: <tcp 0|1> <pipe-fix variant 0|1> ; ops ; behs ; socket answers ; connect answers ; SO_ERROR answers ; event bits
-        ops: T B P<namelen> Q<flags>,<namelen>,<nul 0|1> C R
+        ops: T B b P<namelen> Q<flags>,<namelen>,<nul 0|1> C R
    w:   <stream><state><handle><api> ; <syscall answer>
    The output uses the trace tokens of harness/c07_accept.c and harness/c07_connect.c. *)
 let zi = z_of_int
@@ -71,6 +71,7 @@ let parse_cop (tok : string) : cop =
   match tok.[0] with
   | 'T' -> CTcp
   | 'B' -> CBindBusy
+  | 'b' -> CBind
   | 'P' -> CPipe (nat_of_int (int_of_string arg))
   | 'Q' -> (match String.split_on_char ',' arg with
             | [f; n; z] -> CPipe2 (zi (int_of_string f), nat_of_int (int_of_string n), z = "1")
@@ -89,7 +90,7 @@ let con_case (line : string) : string =
       let beh = behs_of parse_cop behs in
       let (tcp, pfix) = match split_on ' ' tcp with
         | [t; f] -> (t = "1", f = "1") | [t] -> (t = "1", false) | _ -> failwith "bad con head" in
-      let (_, evs) = crun (cinit pfix tcp o) ops beh in
+      let (x_end, evs) = crun (cinit pfix tcp o) ops beh in
       let buf = Buffer.create 256 in
       let add s = Buffer.add_string buf s; Buffer.add_char buf ' ' in
       List.iter (fun e ->
@@ -97,7 +98,13 @@ let con_case (line : string) : string =
         | CRet (r, c) -> add (Printf.sprintf "u%d:%s" (int_of_nat r) (string_of_z c))
         | CCb (r, st, _) -> add (Printf.sprintf "k%d:%s" (int_of_nat r) (string_of_z st))
         | CLost _ -> ()
-        | CClosed -> add "x") evs;
+        | CClosed -> add "x"
+        | CReg n -> add (Printf.sprintf "q%d" (int_of_nat n))) evs;
+      (* the harness then closes every handle and lets the loop finish (callbacks do nothing):
+         uv_loop_alive() and uv_loop_close() are determined by what is still registered *)
+      let (xf, _) = crun x_end [CClose; CRun; CRun] (fun _ -> []) in
+      let left = int_of_nat xf.creg in
+      add (Printf.sprintf "z%d,%d" (if left > 0 then 1 else 0) (if left > 0 then (-16) else 0));
       Buffer.contents buf
   | _ -> failwith "bad con case"
 
